@@ -13,9 +13,10 @@
 (*          disagree at an instant both cover)                             *)
 (***************************************************************************)
 EXTENDS DenseOn, SequencesExt, TLC
-CONSTANTS Formulas, MaxT, MaxN, Vals, Dev, SS
-VARIABLES phi, W, pos, M, emitted, err
-vars == <<phi, W, pos, M, emitted, err>>
+CONSTANTS Formulas, MaxT, MaxN, Vals, Dev, SS,
+          Sems, IOs      \* semantics and IO classes explored (interface-aware variants, property C06)
+VARIABLES phi, W, pos, M, emitted, err, md
+vars == <<phi, W, pos, M, emitted, err, md>>
 
 SigOf(S, e, vs) == LET ts == <<0>> \o SetToSortSeq(S, <) \o <<e>> IN [i \in 1..Len(ts) |-> <<ts[i], vs[i]>>]
 Signals(e) == UNION {{SigOf(S, e, vs) : vs \in [1..(Cardinality(S) + 2) -> Vals]} :
@@ -25,6 +26,7 @@ Init == /\ phi \in Formulas
         /\ \E e \in 1..MaxT : W \in [VarsOf(phi) -> Signals(e)]
         /\ pos = [v \in VarsOf(phi) |-> 0]
         /\ M = InitMemC(phi) /\ emitted = <<>> /\ err = FALSE
+        /\ \E sm \in Sems : \E io \in [VarsOf(phi) -> IOs] : md = [sem |-> sm, io |-> io]
 
 Next ==
   /\ ~err
@@ -32,13 +34,13 @@ Next ==
        /\ \A v \in VarsOf(phi) : pos[v] + k[v] <= Len(W[v])
        /\ \E v \in VarsOf(phi) : k[v] > 0
        /\ LET batch == [v \in VarsOf(phi) |-> SubSeq(W[v], pos[v] + 1, pos[v] + k[v])]
-              r == UpdateC(phi, M, batch, SS, Dev) IN
+              r == UpdateCM(phi, M, batch, SS, Dev, md) IN
           /\ err' = r.err /\ M' = r.M /\ emitted' = emitted \o r.ret
           /\ pos' = [v \in VarsOf(phi) |-> pos[v] + k[v]]
-  /\ UNCHANGED <<phi, W>>
+  /\ UNCHANGED <<phi, W, md>>
 Spec == Init /\ [][Next]_vars
 
 NoErr == ~err
 Mono == Monotone(emitted)
-Agree == err \/ AgreesWithF(emitted, phi, W, VarsOf(phi), SS)
+Agree == err \/ AgreesWithFM(emitted, phi, W, VarsOf(phi), SS, md)
 =============================================================================
